@@ -428,7 +428,9 @@ class File(resource.Resource, filepath.FilePath[str]):
         """
         size = self.getFileSize()
         if start is None:
-            start = size - end
+            # A suffix longer than the resource selects the whole resource
+            # (RFC 9110 section 14.1.2), not a negative offset.
+            start = max(0, size - end)
             end = size
         elif end is None:
             end = size
